@@ -5,9 +5,11 @@ EXTENDS Naturals, Sequences, TLC, Json, IOUtils
 Tr == JsonDeserialize(IOEnv.TRACE_FILE)
 VARIABLES tid, done
 vars == <<tid, done>>
+\* t.modelpoint says whether (api, path, action) is one of the crash points SamplerFaults enumerates for the CURRENT pipeline; a
+\* crash point outside that list (an implementation that opens the cache with another primitive, say) is still "a step that fails":
+\* the same obligations apply.  The check reports how many such points it met (a hint that the model's action list is behind).
 Clause(t) ==
-  IF t.injected /\ ~t.modelpoint THEN "H.CrashPointNotInModel"
-  ELSE IF t.injected /\ ~t.raised THEN "C13.FailurePropagatesToCaller"
+  IF t.injected /\ ~t.raised THEN "C13.FailurePropagatesToCaller"
   ELSE IF t.injected /\ ~t.sameexc THEN "C13.CallerSeesTheOriginalException"
   ELSE IF ~t.injected /\ t.raised THEN "C13.UnfaultedCallRaises"
   ELSE IF Len(t.tmpleft) # 0 THEN "C13.NoTemporaryFileLeftBehind"
